@@ -571,7 +571,7 @@ def run_ties(ctx, n_quick=40, n_thorough=800):
     """-> (failures, count) for the select!-tie schedules (implementation + oracles only)"""
     from vlib import Failure
     ties = gen_tie_cases(ctx.rng, n_quick if ctx.tier == "quick" else n_thorough)
-    outs = ctx.run_impl([c for c, _ in ties])
+    outs = ctx.run_impl([c for c, _ in ties], deterministic=False)
     fails = []
     for (c, info), raw in zip(ties, outs):
         for m in judge_tie(raw, c.split(" "), info)[:2]:
@@ -581,7 +581,7 @@ def run_ties(ctx, n_quick=40, n_thorough=800):
 
 def replay_tie(ctx, payload):
     for c in payload.get("cases", []):
-        for k, raw in enumerate(ctx.run_impl([c] * 8)):
+        for k, raw in enumerate(ctx.run_impl([c] * 8, deterministic=False)):
             print(f"run {k}:", raw[:1500])
     print("(a select! tie: the outcome depends on tokio's random branch choice; tools/looplib.judge_tie holds the oracles)")
     return 0
